@@ -610,13 +610,64 @@ impl Property for C20 {
         };
         let mut n2 = 0;
         let mut second: Vec<pkgsrc::pkgdb::Package> = Vec::new();
+        let mut second_errors = 0usize;
         for item in db2 {
             n2 += 1;
             if n2 > budget {
                 fail!("liveness-iterator", "second iteration does not finish");
             }
-            if let Ok(p) = item {
-                second.push(p);
+            match item {
+                Ok(p) => second.push(p),
+                Err(_) => second_errors += 1,
+            }
+        }
+        // the same listing through the iterator adaptors a caller may use
+        // (nth, skip, step_by): on the now quiescent tree they must agree with
+        // plain next() - the order of two listings of an unchanged directory is
+        // the same, whatever it is
+        {
+            let order: Vec<String> = second.iter().map(|p| p.pkgname().clone()).collect();
+            let fresh = || PkgDB::open(&dbpath).map_err(|e| Violation::new("open-failed", format!("{}", e)));
+            let names_of = |it: &mut dyn Iterator<Item = std::io::Result<pkgsrc::pkgdb::Package>>| -> Vec<String> {
+                it.take(budget).filter_map(|r| r.ok()).map(|p| p.pkgname().clone()).collect()
+            };
+            let all_items = names_of(&mut fresh()?);
+            if all_items == order {
+                ctx.probe("adaptor-listing-compared");
+                for k in [0usize, 1, order.len() / 2, order.len().saturating_sub(1), order.len()] {
+                    // nth counts items (Ok and Err); compare on databases without Err items
+                    if second_errors == 0 {
+                        let got = fresh()?.nth(k).and_then(|r| r.ok()).map(|p| p.pkgname().clone());
+                        ensure!(
+                            got.as_ref() == order.get(k),
+                            "adaptor-disagrees-with-next",
+                            "nth({}) gave {:?}, plain iteration lists {:?} at that position",
+                            k,
+                            got,
+                            order.get(k)
+                        );
+                        let rest = names_of(&mut fresh()?.skip(k));
+                        ensure!(
+                            rest == order[k.min(order.len())..],
+                            "adaptor-disagrees-with-next",
+                            "skip({}) lists {:?}, plain iteration lists {:?} from that position",
+                            k,
+                            rest,
+                            &order[k.min(order.len())..]
+                        );
+                    }
+                }
+                if second_errors == 0 {
+                    let every_other = names_of(&mut fresh()?.step_by(2));
+                    let want: Vec<String> = order.iter().step_by(2).cloned().collect();
+                    ensure!(
+                        every_other == want,
+                        "adaptor-disagrees-with-next",
+                        "step_by(2) lists {:?}, every other package of the plain listing is {:?}",
+                        every_other,
+                        want
+                    );
+                }
             }
         }
         second.sort_by(|a, b| a.pkgname().cmp(b.pkgname()));
@@ -808,6 +859,7 @@ impl Property for C20 {
             "metadata-valid",
             "metadata-invalid",
             "package-dir-with-more-than-14-other-files",
+            "adaptor-listing-compared",
         ]
     }
 }
